@@ -768,7 +768,114 @@ type shapeSpec struct {
 	lean string
 }
 
+func sortedExprKeys(m map[string]ast.Expr) []string {
+	var ks []string
+	for k := range m {
+		ks = append(ks, k)
+	}
+	sort.Strings(ks)
+	return ks
+}
+
+// normNode: normFunc for an arbitrary expression (initialiser of a package-level variable)
+func normNode(p *pkgInfo, root ast.Node) string {
+	type saved struct {
+		id   *ast.Ident
+		name string
+	}
+	var undo []saved
+	names := map[types.Object]string{}
+	ast.Inspect(root, func(n ast.Node) bool {
+		id, ok := n.(*ast.Ident)
+		if !ok || id.Name == "_" {
+			return true
+		}
+		obj := p.info.Defs[id]
+		if obj == nil {
+			obj = p.info.Uses[id]
+		}
+		if obj == nil {
+			return true
+		}
+		switch obj.(type) {
+		case *types.Var, *types.Const, *types.Label:
+		default:
+			return true
+		}
+		if v, isVar := obj.(*types.Var); isVar && v.IsField() {
+			return true
+		}
+		if obj.Pos() < root.Pos() || obj.Pos() >= root.End() {
+			return true
+		}
+		nm, seen := names[obj]
+		if !seen {
+			nm = fmt.Sprintf("_v%d", len(names))
+			names[obj] = nm
+		}
+		undo = append(undo, saved{id, id.Name})
+		id.Name = nm
+		return true
+	})
+	defer func() {
+		for _, u := range undo {
+			u.id.Name = u.name
+		}
+	}()
+	var b bytes.Buffer
+	cfg := printer.Config{Mode: printer.RawFormat}
+	_ = cfg.Fprint(&b, token.NewFileSet(), root)
+	return strings.Join(strings.Fields(b.String()), " ")
+}
+
 func normFunc(p *pkgInfo, fd *ast.FuncDecl) string {
+	// alpha-normalise: every identifier that denotes an object declared inside this function (receiver, parameters,
+	// results, local variables and constants, labels) is printed as _v<k>, k = order of first appearance. Renaming
+	// a local therefore leaves the fingerprint alone; using a different variable does not. Package-level names,
+	// fields, methods, types and imported names are printed as they are.
+	type saved struct {
+		id   *ast.Ident
+		name string
+	}
+	var undo []saved
+	names := map[types.Object]string{}
+	ast.Inspect(fd, func(n ast.Node) bool {
+		id, ok := n.(*ast.Ident)
+		if !ok || id.Name == "_" {
+			return true
+		}
+		obj := p.info.Defs[id]
+		if obj == nil {
+			obj = p.info.Uses[id]
+		}
+		if obj == nil {
+			return true
+		}
+		switch obj.(type) {
+		case *types.Var, *types.Const, *types.Label:
+		default:
+			return true
+		}
+		if v, isVar := obj.(*types.Var); isVar && v.IsField() {
+			return true
+		}
+		if obj.Pos() < fd.Pos() || obj.Pos() >= fd.End() {
+			return true // declared outside this function
+		}
+		nm, seen := names[obj]
+		if !seen {
+			nm = fmt.Sprintf("_v%d", len(names))
+			names[obj] = nm
+		}
+		undo = append(undo, saved{id, id.Name})
+		id.Name = nm
+		return true
+	})
+	defer func() {
+		for _, u := range undo {
+			u.id.Name = u.name
+		}
+	}()
 	// print without comments: printing the bare node (not a CommentedNode) drops them
 	cp := *fd
 	cp.Doc = nil
@@ -801,6 +908,28 @@ func genShapes(o *out, rs, cli *pkgInfo) {
 	}
 	emit("rscp_", rs)
 	emit("e3dc_", cli)
+	// initialisers of package-level variables that hold behaviour (function tables and the like): same normalisation,
+	// hash only. The big generated vocabulary tables are regenerated as data instead (Gen/Tags.lean, Gen/DataTypes.lean).
+	emitVars := func(prefix string, p *pkgInfo) {
+		for _, n := range sortedExprKeys(p.vars) {
+			e := p.vars[n]
+			hasFunc := false
+			ast.Inspect(e, func(x ast.Node) bool {
+				if _, ok := x.(*ast.FuncLit); ok {
+					hasFunc = true
+				}
+				return !hasFunc
+			})
+			if !hasFunc {
+				continue
+			}
+			txt := normNode(p, e)
+			h := sha256.Sum256([]byte(txt))
+			fmt.Fprintf(b, "def %svar_%s : String := %s\n", prefix, n, leanStr(hex.EncodeToString(h[:16])))
+		}
+	}
+	emitVars("rscp_", rs)
+	emitVars("e3dc_", cli)
 	// package-level variables of rscp and every write site outside initialisers
 	fmt.Fprintf(b, "\n/-- package-level variables of package rscp -/\ndef rscpGlobals : List String := [")
 	var gl []string
